@@ -1,0 +1,16 @@
+//go:build verif
+
+package stdlib
+
+import "github.com/go-python/gpython/py"
+
+// VerifYield, when set (verification builds only), is called at every
+// lifecycle yield point with the context and the name of the point that
+// is about to be executed.
+var VerifYield func(ctx py.Context, point string)
+
+func verifYield(ctx *context, point string) {
+	if VerifYield != nil {
+		VerifYield(ctx, point)
+	}
+}
